@@ -259,6 +259,10 @@ inline KV genCase11(bool forTsan)
             s.R0        = s.Rmax * 1e-2;
         }
         s.via_cli = rint(0, 1);
+        if (!forTsan && s.nr_exp <= 5 && rint(0, 5) == 0) {
+            s.grid_kind = rint(1, 5); // a grid loaded from files
+            s.div       = 0;
+        }
         s.put(c, "s_");
         return c;
     }
